@@ -17,107 +17,115 @@ Section Sound.
   Proof. intros v c acc H. unfold discharge in H. apply filter_In in H. tauto. Qed.
 
   (* a conclusion is only drawn from an operand that evaluated accordingly: a consumer of a nil variable survives it *)
-  Lemma apply_true_keeps : forall e c acc, ev e = Val true -> nilv (fst c) = true -> In c acc -> In c (apply_true e acc).
+  Lemma apply_true_keeps : forall e c acc, conds_ok e -> ev e = Val true -> nilv (fst c) = true -> In c acc -> In c (apply_true e acc).
   Proof.
-    intros e c acc E N H. destruct e as [v [|]| | | |]; cbn [apply_true]; try exact H.
-    apply discharge_keeps; [exact H|]. intros Heq. rewrite Heq in N. cbn in E. rewrite N in E. discriminate.
+    intros e c acc K E N H. destruct e as [v k| | | |]; cbn [apply_true]; try exact H.
+    destruct (c_t k) eqn:T; [|exact H].
+    apply discharge_keeps; [exact H|]. intros Heq. rewrite Heq in N. cbn in E, K.
+    injection E as E. apply (proj1 K T) in E. rewrite N in E. discriminate.
   Qed.
 
-  Lemma apply_false_keeps : forall e c acc, ev e = Val false -> nilv (fst c) = true -> In c acc -> In c (apply_false e acc).
+  Lemma apply_false_keeps : forall e c acc, conds_ok e -> ev e = Val false -> nilv (fst c) = true -> In c acc -> In c (apply_false e acc).
   Proof.
-    intros e c acc E N H. destruct e as [v [|]| | | |]; cbn [apply_false]; try exact H.
-    apply discharge_keeps; [exact H|]. intros Heq. rewrite Heq in N. cbn in E. rewrite N in E. discriminate.
+    intros e c acc K E N H. destruct e as [v k| | | |]; cbn [apply_false]; try exact H.
+    destruct (c_f k) eqn:T; [|exact H].
+    apply discharge_keeps; [exact H|]. intros Heq. rewrite Heq in N. cbn in E, K.
+    injection E as E. apply (proj2 K T) in E. rewrite N in E. discriminate.
   Qed.
 
-  (* an operand that panics is not an atomic check *)
+  (* an operand that panics is not a condition *)
   Lemma apply_true_panic : forall e l acc, ev e = Panic l -> apply_true e acc = acc.
-  Proof. intros e l acc E; destruct e as [v [|]| | | |]; try reflexivity; discriminate. Qed.
+  Proof. intros e l acc E; destruct e as [v k| | | |]; try reflexivity; discriminate. Qed.
   Lemma apply_false_panic : forall e l acc, ev e = Panic l -> apply_false e acc = acc.
-  Proof. intros e l acc E; destruct e as [v [|]| | | |]; try reflexivity; discriminate. Qed.
+  Proof. intros e l acc E; destruct e as [v k| | | |]; try reflexivity; discriminate. Qed.
 
   (* pure conjunction trees, in a scope that already holds the consumers of operands to their right *)
-  Lemma pure_and_sound : forall x, pure_and x = true -> forall acc,
+  Lemma pure_and_sound : forall x, pure_and x = true -> conds_ok x -> forall acc,
     (ev x = Val true -> forall c, In c acc -> nilv (fst c) = true -> In c (proc x acc)) /\
     (forall l, ev x = Panic l -> exists v, nilv v = true /\ In (v, l) (proc x acc)).
   Proof.
-    induction x as [v eq|i|v l0|x IHx y IHy|x _ y _]; intros P acc; cbn [pure_and] in P; try discriminate.
+    induction x as [v k|i|v l0|x IHx y IHy|x _ y _]; intros P K acc; cbn [pure_and] in P; try discriminate.
     - split; [intros _ c H _; exact H|intros l E; discriminate].
     - split; [intros _ c H _; exact H|intros l E; discriminate].
     - split.
       + intros _ c H _. right. exact H.
       + intros l E. cbn in E. destruct (nilv v) eqn:N; [|discriminate]. injection E as <-.
         exists v. split; [exact N|left; reflexivity].
-    - apply andb_true_iff in P. destruct P as [Px Py]. specialize (IHx Px). specialize (IHy Py).
+    - apply andb_true_iff in P. destruct P as [Px Py]. destruct K as [Kx Ky]. specialize (IHx Px Kx). specialize (IHy Py Ky).
       cbn [proc eval]. split.
       + intros E c H N. destruct (ev x) as [[|]|] eqn:Ex; try discriminate.
         apply (proj1 (IHx _) eq_refl); [|exact N].
-        apply apply_true_keeps; [exact Ex|exact N|]. apply apply_true_keeps; [exact E|exact N|].
+        apply apply_true_keeps; [exact Kx|exact Ex|exact N|]. apply apply_true_keeps; [exact Ky|exact E|exact N|].
         apply (proj1 (IHy _) E); assumption.
       + intros l E. destruct (ev x) as [[|]|l'] eqn:Ex.
         * destruct (proj2 (IHy acc) l E) as [v [N H]]. exists v. split; [exact N|].
           apply (proj1 (IHx _) eq_refl); [|exact N].
-          apply apply_true_keeps; [exact Ex|exact N|]. rewrite (apply_true_panic y l _ E). exact H.
+          apply apply_true_keeps; [exact Kx|exact Ex|exact N|]. rewrite (apply_true_panic y l _ E). exact H.
         * discriminate.
         * injection E as <-. apply (proj2 (IHx _)). reflexivity.
   Qed.
 
-  Lemma pure_or_sound : forall x, pure_or x = true -> forall acc,
+  Lemma pure_or_sound : forall x, pure_or x = true -> conds_ok x -> forall acc,
     (ev x = Val false -> forall c, In c acc -> nilv (fst c) = true -> In c (proc x acc)) /\
     (forall l, ev x = Panic l -> exists v, nilv v = true /\ In (v, l) (proc x acc)).
   Proof.
-    induction x as [v eq|i|v l0|x _ y _|x IHx y IHy]; intros P acc; cbn [pure_or] in P; try discriminate.
+    induction x as [v k|i|v l0|x _ y _|x IHx y IHy]; intros P K acc; cbn [pure_or] in P; try discriminate.
     - split; [intros _ c H _; exact H|intros l E; discriminate].
     - split; [intros _ c H _; exact H|intros l E; discriminate].
     - split.
       + intros _ c H _. right. exact H.
       + intros l E. cbn in E. destruct (nilv v) eqn:N; [|discriminate]. injection E as <-.
         exists v. split; [exact N|left; reflexivity].
-    - apply andb_true_iff in P. destruct P as [Px Py]. specialize (IHx Px). specialize (IHy Py).
+    - apply andb_true_iff in P. destruct P as [Px Py]. destruct K as [Kx Ky]. specialize (IHx Px Kx). specialize (IHy Py Ky).
       cbn [proc eval]. split.
       + intros E c H N. destruct (ev x) as [[|]|] eqn:Ex; try discriminate.
         apply (proj1 (IHx _) eq_refl); [|exact N].
-        apply apply_false_keeps; [exact Ex|exact N|]. apply apply_false_keeps; [exact E|exact N|].
+        apply apply_false_keeps; [exact Kx|exact Ex|exact N|]. apply apply_false_keeps; [exact Ky|exact E|exact N|].
         apply (proj1 (IHy _) E); assumption.
       + intros l E. destruct (ev x) as [[|]|l'] eqn:Ex.
         * discriminate.
         * destruct (proj2 (IHy acc) l E) as [v [N H]]. exists v. split; [exact N|].
           apply (proj1 (IHx _) eq_refl); [|exact N].
-          apply apply_false_keeps; [exact Ex|exact N|]. rewrite (apply_false_panic y l _ E). exact H.
+          apply apply_false_keeps; [exact Kx|exact Ex|exact N|]. rewrite (apply_false_panic y l _ E). exact H.
         * injection E as <-. apply (proj2 (IHx _)). reflexivity.
   Qed.
 
   (* the whole expression, in its fresh scope *)
-  Theorem left_pure_sound : forall e, left_pure e = true ->
+  Theorem left_pure_sound : forall e, left_pure e = true -> conds_ok e ->
     forall l, ev e = Panic l -> exists v, nilv v = true /\ In (v, l) (proc e []).
   Proof.
-    induction e as [v eq|i|v l0|x _ y IHy|x _ y IHy]; intros P l E; cbn [left_pure] in P.
+    induction e as [v k|i|v l0|x _ y IHy|x _ y IHy]; intros P K l E; cbn [left_pure] in P.
     - discriminate.
     - discriminate.
     - cbn in E. destruct (nilv v) eqn:N; [|discriminate]. injection E as <-. exists v. split; [exact N|left; reflexivity].
-    - apply andb_true_iff in P. destruct P as [Px Py]. cbn [proc eval] in *.
+    - apply andb_true_iff in P. destruct P as [Px Py]. destruct K as [Kx Ky]. cbn [proc eval] in *.
       destruct (ev x) as [[|]|l'] eqn:Ex.
-      + destruct (IHy Py l E) as [v [N H]]. exists v. split; [exact N|].
-        apply (proj1 (pure_and_sound x Px _) Ex); [|exact N].
-        apply apply_true_keeps; [exact Ex|exact N|]. rewrite (apply_true_panic y l _ E). exact H.
+      + destruct (IHy Py Ky l E) as [v [N H]]. exists v. split; [exact N|].
+        apply (proj1 (pure_and_sound x Px Kx _) Ex); [|exact N].
+        apply apply_true_keeps; [exact Kx|exact Ex|exact N|]. rewrite (apply_true_panic y l _ E). exact H.
       + discriminate.
-      + injection E as <-. apply (proj2 (pure_and_sound x Px _)). exact Ex.
-    - apply andb_true_iff in P. destruct P as [Px Py]. cbn [proc eval] in *.
+      + injection E as <-. apply (proj2 (pure_and_sound x Px Kx _)). exact Ex.
+    - apply andb_true_iff in P. destruct P as [Px Py]. destruct K as [Kx Ky]. cbn [proc eval] in *.
       destruct (ev x) as [[|]|l'] eqn:Ex.
       + discriminate.
-      + destruct (IHy Py l E) as [v [N H]]. exists v. split; [exact N|].
-        apply (proj1 (pure_or_sound x Px _) Ex); [|exact N].
-        apply apply_false_keeps; [exact Ex|exact N|]. rewrite (apply_false_panic y l _ E). exact H.
-      + injection E as <-. apply (proj2 (pure_or_sound x Px _)). exact Ex.
+      + destruct (IHy Py Ky l E) as [v [N H]]. exists v. split; [exact N|].
+        apply (proj1 (pure_or_sound x Px Kx _) Ex); [|exact N].
+        apply apply_false_keeps; [exact Kx|exact Ex|exact N|]. rewrite (apply_false_panic y l _ E). exact H.
+      + injection E as <-. apply (proj2 (pure_or_sound x Px Kx _)). exact Ex.
   Qed.
 End Sound.
 
 (* every dereference that can panic is reported *)
 Theorem short_circuit_sound : forall e nilv orc l,
-  left_pure e = true -> eval nilv orc e = Panic l -> In l (reported e).
+  left_pure e = true -> conds_ok e -> eval nilv orc e = Panic l -> In l (reported e).
 Proof.
-  intros e nilv orc l P E. destruct (left_pure_sound nilv orc e P l E) as [v [_ H]].
+  intros e nilv orc l P K E. destruct (left_pure_sound nilv orc e P K l E) as [v [_ H]].
   unfold reported. apply in_map_iff. exists (v, l). split; [reflexivity|exact H].
 Qed.
+
+(* the two atomic checks draw right conclusions *)
+Lemma atomic_ok : forall eq, cond1_ok (atomic eq).
+Proof. intros [|]; split; cbn; intros T n E; try discriminate; destruct n; auto; discriminate. Qed.
 
 (* a nil check protects what it guards: the classic chains are silent *)
 Example guarded_chain_silent :
